@@ -237,7 +237,9 @@ class C11(Prop):
         "gumbel_censored_fit_stationary", "gumbel_loc_fits_closed_form", "gumbel_fits_terminate",
         # round 3: the solvers
         "bisection_total_documented_status", "bisection_keeps_root_bracketed", "newton_root_total_documented_status", "bisection_converges", "bisection_negative_root_regression",
-        "bracket_postcondition", "brent_descends_from_its_start", "brent_nonfinite_interval_exits", "cg_value_is_objective_at_result", "cg_is_not_a_descent_method")]
+        "bracket_postcondition", "brent_descends_from_its_start", "brent_nonfinite_interval_exits", "cg_value_is_objective_at_result", "cg_is_not_a_descent_method",
+        # round 4
+        "cg_statistics_are_of_the_proved_run", "cg_terminates_within_max_iterations", "cg_descends_unless_brent_loses_the_bracket_point")]
     claimed = True
     technique = ("Lean 4 proof over an executable line-by-line model (numeric class: Float for the bit-exact differential run, Q/R for the theorems) "
                  "+ bit-exact correspondence with the ASan/UBSan-built C code + exact-rational / log-likelihood property monitors")
@@ -858,6 +860,30 @@ class C11(Prop):
                     if 0.6 < v < 0.7: op += " restol=%s" % d(rng.choice([1e-8, 1e-3]))
                     if rng.random() < 0.15: op += " reps=2"
                     ops.append(op)
+                elif t < 0.64:    # ---- minimiser on the negative log-likelihood of generated data (Weibull = wei_func, gamma, stretched exponential)
+                    fam = rng.choice(["weinll", "weinll", "gamnll", "gamnll", "sxpnll"])
+                    n = rng.choice([10, 20, 50, 120, 300]); lam = rnd_scale(); tau = rng.choice([0.5, 0.8, 1.0, 1.5, 2.5, 4.0]); mu0 = rng.choice([0.0, 0.0, -20.0, 5.0])
+                    if fam == "gamnll": xs = [mu0 + rng.gammavariate(tau, 1.0 / lam) for _ in range(n)]
+                    elif fam == "weinll": xs = [mu0 + rng.weibullvariate(1.0 / lam, tau) for _ in range(n)]
+                    else: xs = [mu0 + rng.gammavariate(1.0 / tau, 1.0) ** (1.0 / tau) / lam for _ in range(n)]
+                    if rng.random() < 0.15: xs[rng.randrange(n)] = xs[rng.randrange(n)]            # a tie
+                    mu = min(xs) if rng.random() < 0.6 else min(xs) - rng.choice([1e-9, 1e-3, 0.5]) / lam    # pinned to the smallest sample (as the fits do) or below
+                    mean = sum(xs) / n
+                    u = rng.random()
+                    if u < 0.5: x0 = [math.log(1.0 / (mean - mu)), math.log(0.9)]                     # the fits' own start
+                    elif u < 0.7: x0 = [math.log(lam), math.log(tau)]                                 # the generating parameters
+                    elif u < 0.8: x0 = [math.log(lam), 0.0]                                           # tau == 1 exactly
+                    else: x0 = [math.log(lam) + rng.uniform(-3, 3), math.log(tau) + rng.uniform(-1.5, 1.5)]
+                    cfg = ""
+                    if rng.random() < 0.4:
+                        cfg = " cfg=create"
+                        if rng.random() < 0.4: cfg += " maxit=%d" % rng.choice([0, 1, 2, 5, 20, 500])
+                        if rng.random() < 0.2: cfg += " brackmax=%d" % rng.choice([0, 1, 3, 10])
+                        if rng.random() < 0.3: cfg += " u=%s" % bl([rng.choice([2.0, 0.1, 1.0]) for _ in range(2)])
+                        if rng.random() < 0.2: cfg += " cgrtol=%s" % d(rng.choice([1e-4, 1e-8, 1e-2]))
+                        if rng.random() < 0.15: cfg += " dstep=%s" % d(rng.choice([1e-4, 1e-6, 1e-2]))
+                    ops.append("data xs=%s" % bl(xs))
+                    ops.append("cgd fam=%s p=%s x0=%s%s%s" % (fam, d(mu), bl(x0), cfg, " nodat=1" if rng.random() < 0.1 else ""))
                 else:             # ---- minimiser: cgd / bracket / brent
                     fam = rng.choice(["quad", "quad", "rosen", "explin", "logbar", "needle"])
                     n = 2 if fam == "rosen" else rng.choice([1, 1, 2, 2, 3, 4, 6])
@@ -888,7 +914,8 @@ class C11(Prop):
                         if rng.random() < 0.15: cfg += " dstep=%s" % d(rng.choice([1e-4, 1e-6, 1e-2]))
                     w = rng.random()
                     if w < 0.55:
-                        ops.append("cgd fam=%s p=%s x0=%s%s%s" % (fam, bl(p), bl(x0), " grad=1" if fam == "quad" and rng.random() < 0.5 else "", cfg))
+                        ops.append("cgd fam=%s p=%s x0=%s%s%s%s" % (fam, bl(p), bl(x0), " grad=1" if fam == "quad" and rng.random() < 0.5 else "", cfg,
+                                                                      " nodat=1" if rng.random() < 0.1 else ""))
                     else:
                         dvec = [rng.choice([1.0, -1.0, 0.5, 3.0, rng.uniform(-2, 2)]) for _ in range(n)]
                         if rng.random() < 0.05: dvec[rng.randrange(n)] = rng.choice([float("nan"), float("inf")])
@@ -975,6 +1002,20 @@ class C11(Prop):
                 if st not in ("ok", "enohalt", "erange", "enoresult"): return Failure("monitor", "esl_min_ConjugateGradientDescent: undocumented status %s" % st)
                 r = kv(l); fx = fbits(r["fx"])
                 if st in ("erange", "enoresult") and fx != math.inf: return Failure("monitor", "esl_min_ConjugateGradientDescent: *opt_fx must be +inf on a thrown exception")
+                if "it" in r:           # the ESL_MIN_DAT table of the run
+                    it = int(r["it"]); maxit = int(a.get("maxit", 100)) if a.get("cfg") == "create" else 100
+                    brackmax = int(a.get("brackmax", 100)) if a.get("cfg") == "create" else 100
+                    nvar = len(parse_xs(a["x0"])); g = 0 if (a.get("grad") == "1" and a["fam"] == "quad") else 2 * nvar
+                    ints = lambda t: [] if t == "-" else [int(v) for v in t.split(",")]
+                    bn, rn, nf = ints(r["bn"]), ints(r["rn"]), ints(r["nf"])
+                    if it > max(maxit, 0): return Failure("monitor", "esl_min_ConjugateGradientDescent: %d iterations with max_iterations = %d" % (it, maxit))
+                    if st == "enohalt" and it != max(maxit, 0): return Failure("monitor", "esl_min_ConjugateGradientDescent: eslENOHALT after %d of %d iterations" % (it, maxit))
+                    if not (len(bn) == len(rn) == len(nf) == it): return Failure("monitor", "ESL_MIN_DAT: table length differs from niter")
+                    if any(b > brackmax for b in bn): return Failure("monitor", "bracket(): more than brack_maxiter rounds")
+                    if int(r["nf0"]) != 1 + g or any(f != b + 3 + q + 1 + g for f, b, q in zip(nf, bn, rn)):
+                        return Failure("monitor", "ESL_MIN_DAT: nfunc is not the number of objective evaluations (bracket niter+3, brent niter+1, numeric gradient 2n)")
+                    self._solver["cgd:iterations"] = self._solver.get("cgd:iterations", 0) + it
+                    if r["mono"] == "0": self._solver["cgd:fx-trace-not-monotone"] = self._solver.get("cgd:fx-trace-not-monotone", 0) + 1
                 if st == "enohalt":
                     v = self._obj(a["fam"], parse_xs(a["p"]), parse_xs(r["x"]))
                     if v is not None and v != fx and not (math.isnan(v) and math.isnan(fx)):
